@@ -25,6 +25,12 @@
 //      direction - e.g. an issuerAltName that suppresses the CN fallback - is stricter than the property, it is
 //      counted (extras-turn-accept-into-reject), not flagged, because the model asserts no completeness for the
 //      CN fallback).
+//   6. SCENARIOS (late-drawn, see SC_* below): the same oracles with "accepts" read off what the API reports to a caller that tolerates one soft
+//      defect: a leaf that is expired / not yet valid counts as accepted when authStatus == PS_CERT_AUTH_FAIL_EXTENSION and authFailFlags is the date
+//      flag alone (in the handshake sample: a certificate callback that continues on CERTIFICATE_EXPIRED only for such a chain); a self-signed leaf is
+//      validated with issuerCerts == NULL.  A wrong name must show up as PS_CERT_AUTH_FAIL_SUBJECT_FLAG / a refused handshake there too.
+//   7. SINGLE-BIT NEIGHBOURS and HIDDEN NULs (late-drawn, see gen_late): names that differ from E in one bit of one character (CN: raw, SAN: printable),
+//      E+NUL+tail in a CN of every encoding incl. a BIT STRING with raw content octets - all judged by oracle 1.
 //   + ASan/UBSan on everything.
 //
 // Deliberate tolerances (documented behaviour, never flagged):
@@ -34,6 +40,8 @@
 //     IP literal may match a dNSName with the same text;
 //   * an expected name starting with '.' may match "*.rest" (empty label; such an E is not a valid host name);
 //   * wildcards are honoured in the subject CN as well as in dNSName entries;
+//   * a CN encoded as BIT STRING whose content octets are a printable name may match like an 8-bit string (CN_BITRAW); with a NUL or another
+//     non-printable byte it never may;
 //   * expected names that themselves contain non-printable bytes are not judged by oracle 1 (the documented
 //     precondition of psX509ValidateGeneralName/matrixValidateCerts is a sane, application-chosen name);
 //     oracles 2 and 4 and the sanitizers still apply.
@@ -859,7 +867,6 @@ static void prop(Tape &t, Ctx &c) {
         if (other_would) c.count("other-non-subject-name-would-match-E");
     }
     c.count(S("late-") + late.what); c.count(S("scenario-") + SCN[scen]); if (scen == SC_DATED) c.count(late.validity == c05::VAL_EXPIRED ? "leaf-expired" : "leaf-not-yet-valid");
-    if (cn.has_cn) c.count("cn-how-" + cn_how);
     if (cn.has_cn && cn.cn_type != c05::CN_BMP && cn.cn.find('\0') != S::npos) c.count(fmt("cn-with-nul-type-%d", cn.cn_type));
     c.count(fmt("san-len-%zu", ents.size())); c.count(issuer == c05::ISS_EC ? "issuer-ec" : "issuer-rsa"); c.count(S("nameType-") + NTN[nameType]); c.count(fmt("mFlags-%u", mFlags)); c.count(S("E-kind-") + EKN[E.kind]);
     if (!E.judged) c.count("E-nonprintable-unjudged");
@@ -977,8 +984,9 @@ static void prop(Tape &t, Ctx &c) {
             if (!h.client_complete && h.alert_at_server == SSL_ALERT_CERTIFICATE_UNKNOWN) c.count("hs-alert-certificate-unknown");
             if (h.client_complete != v0.accept) c.count(h.client_complete ? "hs-accepts-direct-rejects" : "hs-rejects-direct-accepts");
             if (h.client_complete && !ref && v0.rc == PS_ARG_FAIL)
-                VF_FAIL("handshake-ignores-validation-error", "%s handshake COMPLETED although matrixValidateCertsExt refuses these options with PS_ARG_FAIL (no name check, no chain check was done): %s",
-                        mxh::ver_name(hs_ver), describe(E, nameType, mFlags, vflags, cn, ents, nullptr).c_str());
+                VF_FAIL(scen == SC_DATED ? "callback-told-success-after-validation-error" : "handshake-ignores-validation-error",
+                        "%s handshake COMPLETED%s although matrixValidateCertsExt refuses these options with PS_ARG_FAIL (no name check, no chain check was done): %s",
+                        mxh::ver_name(hs_ver), scen == SC_DATED ? " (the certificate callback continues only on alert 0 or on an expired-only chain)" : "", describe(E, nameType, mFlags, vflags, cn, ents, nullptr).c_str());
             if (h.client_complete && !ref)
                 VF_FAIL(S("handshake-") + wrong_accept_sig(),"%s handshake COMPLETED with expectedName (scenario %s) although no certificate name matches: %s",
                         mxh::ver_name(hs_ver), SCN[scen], describe(E, nameType, mFlags, vflags, cn, ents, nullptr).c_str());
